@@ -106,9 +106,15 @@ func TestProp_Enrollment(t *testing.T) {
 		var hist []string
 		opsBefore := 0
 		desync := false
+		// how the operator "omits" the registration wrapper: by not passing the option, or
+		// by a later option in the same list that sets it to nil (options are last-wins)
+		omitByNilOverride := rapid.Bool().Draw(t, "wrapperOmittedByALaterNilOption")
 		serverOpts := func() []nodeenrollment.Option {
 			if regW != nil {
 				return w.O(nodeenrollment.WithRegistrationWrapper(regW))
+			}
+			if omitByNilOverride {
+				return w.O(nodeenrollment.WithRegistrationWrapper(wrapA), nodeenrollment.WithRegistrationWrapper(nil))
 			}
 			return w.O()
 		}
